@@ -27,6 +27,7 @@ pub fn e1_check(id: &str) -> Option<Check> {
     let c = match id {
         "C01" => {
             p.name = "uaf";
+            p.w_recycle = 1;
             p.threads = (2, 5);
             p.w_hold = 2;
             p.outlive = 30;
@@ -64,6 +65,9 @@ pub fn e1_check(id: &str) -> Option<Check> {
         "C03" => {
             p.name = "lin";
             p.threads = (2, 4);
+            p.reuse = 50;
+            p.w_recycle = 3;
+            p.w_stall = 6;
             p.w_load = 8;
             p.w_loadfull = 3;
             p.w_hold = 1;
@@ -77,7 +81,7 @@ pub fn e1_check(id: &str) -> Option<Check> {
                 deciding: &["O-lin"],
                 rule: "2-4 threads mixing loads with store/swap/CAS/rcu, re-stores and A-B-A enabled, late threads with/without hb edge, mailboxes. Oracle: Wing-Gong linearizability of the per-container history (real-time order in SC mode, happens-before order in M2) + white-box window on the pointer word's modification order. Non-trivial: a load overlapped a write's exchange and >= 2 identities were observed by loads.",
                 nontrivial: |_, o| o.hs.loads_overlapped > 0 && o.hs.distinct_ids_loaded >= 2,
-                quick: 60_000,
+                quick: 100_000,
                 thorough: 3_000_000,
                 fixup: nofix,
             }
@@ -106,6 +110,7 @@ pub fn e1_check(id: &str) -> Option<Check> {
         }
         "C05" => {
             p.name = "cas";
+            p.reuse = 50;
             p.w_cas = 10;
             p.w_swap = 3;
             p.w_store = 3;
@@ -296,6 +301,9 @@ pub fn e1_check(id: &str) -> Option<Check> {
         }
         "C12" => {
             p.name = "isolation";
+            p.w_recycle = 4;
+            p.w_stall = 6;
+            p.reuse = 60;
             p.conts = (2, 3);
             p.threads = (2, 4);
             p.restore = 30;
@@ -307,8 +315,8 @@ pub fn e1_check(id: &str) -> Option<Check> {
                 profile: p,
                 deciding: &["O-lin", "O-chain", "O-acct"],
                 rule: "2-3 containers, one value stored in several containers / twice in one, readers forced onto the fallback (60% fallback-only strategy) while writers to other containers walk their node. Oracle: per-container linearizability with provenance (a value returned from X was stored in X), exact accounting. Non-trivial: a writer to X examined a node whose owner had a read intent for another container, or one value was stored in two containers.",
-                nontrivial: |_, o| o.stats.help_other_cont > 0 || o.hs.shared_value_conts > 0,
-                quick: 50_000,
+                nontrivial: |_, o| o.stats.help_other_cont > 0 || o.hs.shared_value_conts > 0 || o.stats.foreign_pay_unconfirmed > 0,
+                quick: 100_000,
                 thorough: 2_000_000,
                 fixup: nofix,
             }
